@@ -69,7 +69,7 @@ theorem pushScalar_scalarDT (ext : Ext) (b : B) (x : SVal) (b' : B) (dt : DataTy
   | bytes p ty v offs data => simp only [Shape] at hs; rw [hs.1]; cases ty <;> rfl
   | fixedSizeBinary p k len v buf cur => simp only [Shape] at hs; rw [hs.1]; rfl
   | bytesView _ ty _ _ _ => simp only [Shape] at hs; rw [hs.1]; cases ty <;> rfl
-  | dictionary _ _ _ _ => simp only [Shape] at hs; obtain ⟨⟨kdt, vdt, rfl⟩, _⟩ := hs; rfl
+  | dictionary _ _ _ _ => simp only [Shape] at hs; obtain ⟨⟨kdt, vdt, rfl, _⟩, _⟩ := hs; rfl
   | unknownVariant _ => simp [pushScalar, fail] at h
   | list _ _ _ _ _ _ => simp [pushScalar, notSupported, fail] at h
   | fixedSizeList _ _ _ _ _ _ _ => simp [pushScalar, notSupported, fail] at h
